@@ -117,7 +117,8 @@ structure Sess where
   ref : Nat
   last : Nat                 -- last_rx_tx
   conActive : Nat
-  delayq : Nat               -- length of session->delayqueue (entries hold NO reference: node->session = NULL)
+  delayq : Nat               -- length of session->delayqueue (entries hold NO reference: node->session = NULL; the
+                             -- coap_queue_t objects themselves are in `St.partials`)
   notes : Nat                -- notifications sent on this session so far (each takes a fresh message id of the session);
                              -- on a stream session: every message with a non-empty, non-signalling code written to it
   closed : Bool := false     -- `state == COAP_SESSION_STATE_NONE`: a stream session whose connection is gone
@@ -136,7 +137,11 @@ structure St where
   eps : List (Nat × Nat) := []             -- ctx->endpoint list (LL_PREPEND order): (local port, proto)
   sessions : List Sess := []               -- all endpoints' tables, creation order (= uthash iteration order)
   holders : List Holder := []
-  partials : List (Nat × Nat) := []        -- `session->partial_pdu` of the stream sessions: (ledger id of the coap_pdu_t, session)
+  partials : List (Nat × Nat) := []        -- objects that HANG OFF a session without holding a reference on it: (ledger id, session).
+                                           -- Stream sessions: `session->partial_pdu` (the coap_pdu_t); datagram sessions: the
+                                           -- coap_queue_t nodes of `session->delayqueue` (a Confirmable waiting for its NSTART
+                                           -- slot), in queue order.  Both are released by coap_session_mfree and by
+                                           -- coap_session_disconnected_lkd; the two never exist on the same session
   resAlive : List Nat := []                -- observable resources still registered
   dirty : List Nat := []                   -- resources with r->dirty set (then ctx->observe_pending is set as well)
   ctxObjs : List Nat := []                 -- ledger ids of context, endpoints, resources
@@ -209,6 +214,47 @@ def St.addPartial (st : St) (sid : Nat) : St :=
 def St.dropPartial (st : St) (sid : Nat) : St :=
   { st with partials := st.partials.filter (fun x => x.2 != sid),
             ledger := st.ledger ++ (st.partials.filter (fun x => x.2 == sid)).map fun x => .free x.1 }
+
+/-- `session->delayqueue = q->next; …; coap_wait_ack(context, session, q)` in coap_session_connected: the node that waited
+    in the session's delay queue is NOT freed and no new one is allocated — the same coap_queue_t (same ledger id) goes
+    into `context->sendqueue`, and coap_wait_ack takes the reference that a queued message holds on its session:
+    `node->session = coap_session_reference_lkd(session)`.  From here on coap_delete_node_lkd releases it. -/
+def St.promote (st : St) (x : Nat × Nat) (due : Nat) : St :=
+  if x ∈ st.partials then
+    { (st.updSess x.2 Sess.reference) with
+      holders := st.holders ++ [⟨x.1, x.2, .node 0 due⟩], partials := st.partials.erase x }
+  else st
+
+def NSTART : Nat := 1
+
+/-- `coap_session_connected(session)` on an ESTABLISHED datagram session = the flush of `session->delayqueue`, called
+    whenever an exchange of the session ends (`if (sent && session->con_active) { session->con_active--; if (state ==
+    ESTABLISHED) coap_session_connected(session); }` in the ACK / RST / bad-packet branches of coap_dispatch, and in
+    coap_retransmit when it gives up):
+    ```
+    while (session->delayqueue && …) {
+      q = session->delayqueue;
+      if (q->pdu->type == COAP_MESSAGE_CON && COAP_PROTO_NOT_RELIABLE(proto)) {
+        if (session->con_active >= COAP_NSTART(session)) break;
+        session->con_active++;
+      }
+      session->delayqueue = q->next;  coap_session_send_pdu(session, q->pdu);     /* last_rx_tx = clock */
+      if (CON && NOT_RELIABLE) coap_wait_ack(session->context, session, q);       /* reference, into the sendqueue */
+    }
+    ```
+    Every delayed entry of this alphabet is a Confirmable and NSTART = 1, so at most one entry leaves per call.
+    (A stream session has no delayed entries here — the write shim takes everything — and its `partials` entry is the
+    partly received PDU: nothing to flush.) -/
+def St.flushDelayed (st : St) (sid : Nat) : St :=
+  match st.getSess sid with
+  | none => st
+  | some s =>
+    if s.peer.reliable || s.conActive ≥ NSTART then st else
+    match st.partials.find? (fun x => x.2 == sid) with
+    | none => st
+    | some x =>
+      (st.updSess sid fun t => { t with conActive := t.conActive + 1, delayq := t.delayq - 1, last := st.now }).promote x
+        (st.now + ACK_TIMEOUT_TICKS)
 
 /-- `coap_handle_event_lkd(ctx, COAP_EVENT_SERVER_SESSION_DEL, s); coap_session_free(s);`
     coap_session_free → coap_session_mfree releases what hangs off the session (here: the partly received PDU), then the
@@ -291,8 +337,8 @@ def St.retransmit (st : St) (h : Holder) : St :=
         { st1 with holders := st1.holders.map fun x =>
             if x = h then { h with kind := .node (cnt + 1) (st.now + ACK_TIMEOUT_TICKS * 2 ^ (cnt + 1)) } else x }
       else
-        -- give up: con_active--, NACK, coap_delete_node_lkd
-        (st.updSess h.sid fun s => { s with conActive := s.conActive - 1 }).dropHolder h
+        -- give up: con_active--, coap_session_connected (flush of the session's delay queue), NACK, coap_delete_node_lkd
+        ((st.updSess h.sid fun s => { s with conActive := s.conActive - 1 }).flushDelayed h.sid).dropHolder h
     else st
   | _ => st
 
@@ -404,6 +450,10 @@ inductive Event where
   | rx (p : Peer) (r : Req)
   | rst (p : Peer)           -- peer answers its session's outstanding CON with RST
   | ping (p : Peer)          -- coap_session_send_ping
+  | sendCon (p : Peer)       -- application: coap_send(session, separate Confirmable 2.05) on the peer's session
+  | ack (p : Peer) (bad : Bool)  -- peer answers its session's outstanding CON with an ACK carrying the same message id:
+                             -- an empty ACK, or (`bad`) one that coap_dispatch classifies as a bad packet (request code
+                             -- in an ACK, invalid code class)
   | asyncFree (p : Peer)
   | appRef (p : Peer)
   | appRelease (p : Peer)
@@ -601,7 +651,36 @@ def St.step (st : St) (e : Event) : St × Outcome :=
       | some h =>
         let (st1, sid) := st.getSession p
         let st2 := st1.updSess sid fun t => { t with conActive := t.conActive - 1 }
-        ((st2.dropHolder h).prepareIo, .handled sid)
+        -- … `coap_session_connected(session)`: a Confirmable that waited in the delay queue is sent and queued …
+        (((st2.flushDelayed sid).dropHolder h).prepareIo, .handled sid)
+  | .ack p bad =>
+    -- ACK branch of coap_dispatch (and the invalid-code-class branch at its top): `coap_remove_from_queue(&sendqueue,
+    -- session, pdu->mid, &sent)`, `con_active--`, `coap_session_connected(session)`; an empty ACK needs no further
+    -- handling, a bad one: `packet_is_bad = 1`; both `goto cleanup`:
+    -- `if (packet_is_bad) { if (sent) coap_handle_nack(session, sent->pdu, COAP_NACK_BAD_RESPONSE, sent->id); … }
+    --  coap_delete_node_lkd(sent);` — the node, its PDU and its session reference go in BOTH cases
+    match st.lookup p with
+    | none => (st, .skip)
+    | some s =>
+      match st.findHolder s.sid isNode with
+      | none => (st, .skip)
+      | some h =>
+        let (st1, sid) := st.getSession p
+        let st2 := st1.updSess sid fun t => { t with conActive := t.conActive - 1 }
+        (((st2.flushDelayed sid).dropHolder h).prepareIo, if bad then .handled sid else .ok)
+  | .sendCon p =>
+    match st.lookup p with
+    | none => (st, .skip)
+    | some s =>
+      if s.peer.reliable then (st, .skip)
+      else if s.conActive ≥ NSTART then
+        -- coap_send_pdu: `pdu->type == CON && con_active >= NSTART` → coap_session_delay_pdu(session, pdu, NULL):
+        -- coap_new_node, LL_APPEND(session->delayqueue, node); nothing is sent, NO reference is taken
+        ((st.updSess s.sid fun t => { t with delayq := t.delayq + 1 }).addPartial s.sid, .ok)
+      else
+        -- sent (`con_active++`, `last_rx_tx = now`), coap_new_node, coap_wait_ack: reference, into the sendqueue
+        let st1 := st.updSess s.sid fun t => { t with conActive := t.conActive + 1, last := st.now }
+        (st1.addHolder s.sid (.node 0 (st.now + ACK_TIMEOUT_TICKS)), .ok)
   | .ping p =>
     match st.lookup p with
     | none => (st, .skip)
